@@ -338,8 +338,27 @@ func runC04(c *Ctx) {
 		tip := c.method("headerfs", "BlockHeaderStore", "ChainTip")
 		errCut := func(fn *ssa.Function, calls []ssa.Instruction, idx int) ir.Cut {
 			cut := ir.Cut{}
-			for _, s := range errNil("", calls, idx).sites {
+			g := errNil("", calls, idx)
+			for _, s := range g.sites {
 				cut[s.br.Other()] = true
+			}
+			// the result carried to a join by a result variable whose other
+			// incoming values are the nil constant (a helper that returns nil
+			// when there was nothing to do, inlined): non-nil behind the join
+			// means that this call failed
+			for _, s := range g.weak {
+				if s.br.Via == nil {
+					continue
+				}
+				onlyNil := true
+				for _, e := range s.br.Via.Edges {
+					if e != s.site.(ssa.Value) && !ir.IsNil(e) {
+						onlyNil = false
+					}
+				}
+				if onlyNil {
+					cut[s.br.Other()] = true
+				}
 			}
 			return cut
 		}
